@@ -651,6 +651,10 @@ CORPUS = [
     "$", "?", "x = 1 $", "\x00", "é = 1", "x = 'é'  # é\ny", "0777", "1__0", "1.e5", "0b12", "1e", "x = 0_0", "1if 2else 3", "1_000.0_1e+1_0j",
     "@", "@x", "x: int", "x: int = 1; y", "del x,", "*a, b = c", "*a", "a, b", "a,", "(a)", "((a))", "()", "[]", "{}", "a if b else c\n\n",
     "yield x", "await x", "x\n  ", "x\n  # c", "x\n# c\n", "x \\\n + y", "if x:\n\tpass\n        pass", "if x:\n        pass\n\tpass",
+    # white space in the sense of Rust's `char::is_whitespace` / `str::trim` or of Python's `str.isspace`, but not blank to the
+    # lexer: no entry point may treat such a text as empty (seed C09-8: a `trim().is_empty()` short cut in `parse`)
+    "\u00a0", "\n\u3000\n", "\n\x0b\n", "\u0085", " \t", "\x1c", "\x1f", "\u2028", "\u2029", "\u2003 ", "\u00a0# c", "\u1680\n", "\u202f", "\u205f",
+    "\ufeff\u00a0", "x\u00a0", "\u00a0x", "x = 1\n\u3000", " \t\n", "\t \n", "\x0c\x0b",
     "try:\n pass\nfinally:\n pass", "with (a as b): pass", "async def f(): await x", "global x", "return", "import a", "from . import a",
 ]
 
